@@ -141,16 +141,22 @@ PROPS = {
                       "is carried by the tie: the correspondence drives several handles (including "
                       "fresh database() calls) through one interleaved history while the model treats "
                       "them as separate values.",
-        "lean_modules": ["Astral.Props.C17"],
+        "lean_modules": ["Astral.Props.C17", "Astral.Props.C17Parse"],
         "theorems": [
             "Astral.C17.all_after_addRec", "Astral.C17.all_after_addMany", "Astral.C17.wf_addRec",
             "Astral.C17.wf_addMany", "Astral.C17.lookupInGroup_sound", "Astral.C17.lookupInGroup_bare",
             "Astral.C17.lookupInGroup_complete", "Astral.C17.lookupInGroup_error",
             "Astral.C17.lookup_group", "Astral.C17.lookup_sound", "Astral.C17.lookup_complete",
             "Astral.C17.lookup_unknown", "Astral.C17.sanitize_idem", "Astral.C17.parseQuery_spelling",
+            "Astral.C17Parse.join_split", "Astral.C17Parse.split_pieces_free", "Astral.C17Parse.split_join",
+            "Astral.C17Parse.blank_line_skipped", "Astral.C17Parse.comment_line_skipped",
+            "Astral.C17Parse.fields_record", "Astral.C17Parse.too_few_fields",
+            "Astral.C17Parse.line_adds_record",
         ],
         "groups": [G("corr_geo", "geocoder", 2500, 60000)],
-        "unproved": ["parsing of text lines into records (strip/split) is tied by correspondence only"],
+        "unproved": ["str.strip (white-space class) and the error precedence for exactly four fields are tied "
+                     "by correspondence only; split/join inverse laws, comment and blank lines and the "
+                     "well-formed-line theorem are proved (C17Parse)"],
         "assumes": ["ASCII alphabet for case folding"],
     },
     "C02": {
